@@ -179,13 +179,14 @@ struct Plan {
     intr: Option<(usize, usize)>, // first call, repetitions
     short: Option<(u64, u64)>,    // pattern, parameter
     flush: Option<(usize, u64)>,  // flush call index, error (the generator calls no flush today; a refactoring may)
+    short_once: Option<(usize, u64)>, // at call k only: 0 accept 1 byte, 1 accept len-1, 2 accept half
 }
 
-const KIND_NAMES: [&str; 9] = ["none", "hard", "zero", "at_byte", "interrupted", "short", "short+hard", "interrupted+hard", "flush-fails"];
+const KIND_NAMES: [&str; 10] = ["none", "hard", "zero", "at_byte", "interrupted", "short", "short+hard", "interrupted+hard", "flush-fails", "short-once"];
 
 fn decode_plan(ch: &mut Chooser, n_calls: usize, n_bytes: usize) -> (u64, Plan) {
     let n = n_calls.max(1) as u64;
-    let kind = ch.choose("kind", 9);
+    let kind = ch.choose("kind", 10);
     let mut p = Plan::default();
     match kind {
         1 => {
@@ -206,7 +207,7 @@ fn decode_plan(ch: &mut Chooser, n_calls: usize, n_bytes: usize) -> (u64, Plan) 
             p.intr = Some((k, r));
         }
         5 => {
-            let pat = ch.choose("pattern", 4);
+            let pat = ch.choose("pattern", 5);
             let param = ch.choose("param", 1 << 16);
             p.short = Some((pat, param));
         }
@@ -226,6 +227,11 @@ fn decode_plan(ch: &mut Chooser, n_calls: usize, n_bytes: usize) -> (u64, Plan) 
             let gap = ch.choose("gap", 16) as usize;
             let e = ch.choose("err", 18);
             p.hard = Some((k + r + gap, e, false));
+        }
+        9 => {
+            let k = ch.choose("k", n) as usize;
+            let how = ch.choose("short_how", 3);
+            p.short_once = Some((k, how));
         }
         8 => {
             let j = ch.choose("flush_index", 64) as usize;
@@ -323,15 +329,26 @@ impl io::Write for FaultyWriter {
                     self.lcg = self.lcg.wrapping_mul(6_364_136_223_846_793_005).wrapping_add(1_442_695_040_888_963_407);
                     1 + ((self.lcg >> 33) as usize) % buf.len()
                 }
-                _ => {
+                3 => {
                     if idx % 2 == 0 {
                         1
                     } else {
                         buf.len()
                     }
                 }
+                _ => buf.len().saturating_sub(1).max(1),
             };
             if n < buf.len() {
+                self.fired_transient += 1;
+            }
+        }
+        if let Some((k, how)) = self.plan.short_once {
+            if k == idx && buf.len() > 1 {
+                n = match how {
+                    0 => 1,
+                    1 => buf.len() - 1,
+                    _ => buf.len().div_ceil(2),
+                };
                 self.fired_transient += 1;
             }
         }
@@ -760,7 +777,7 @@ fn build_items(ctx: &Ctx, tier: &str, seed: u64) -> (Vec<Item>, Value) {
                 items.push(Item { doc: d, tape: vec![8, j, e] });
             }
         }
-        for pat in 0..4u64 {
+        for pat in 0..5u64 {
             items.push(Item { doc: d, tape: vec![5, pat, 7 + pat] });
         }
         let full_limit = if thorough { 30_000 } else { 6_000 };
@@ -773,12 +790,24 @@ fn build_items(ctx: &Ctx, tier: &str, seed: u64) -> (Vec<Item>, Value) {
                 }
                 items.push(Item { doc: d, tape: vec![2, k] });
                 items.push(Item { doc: d, tape: vec![4, k, 0] });
+                if !all_errs {
+                    // besides the representative kinds, one further kind per call index, rotating through the rest
+                    items.push(Item { doc: d, tape: vec![1, k, [1u64, 2, 4, 5, 6, 7, 8, 9, 10, 11, 12, 14, 15, 17][(k % 14) as usize], 0] });
+                }
+                if n <= 700 || thorough {
+                    // a single short write at exactly this call (1 byte / len-1 / half), and repeated interruptions of it
+                    for how in 0..3u64 {
+                        items.push(Item { doc: d, tape: vec![9, k, how] });
+                    }
+                    items.push(Item { doc: d, tape: vec![4, k, 1] });
+                    items.push(Item { doc: d, tape: vec![4, k, 2] });
+                }
                 if thorough && n <= 6_000 {
                     items.push(Item { doc: d, tape: vec![1, k, 0, 1] });
                     items.push(Item { doc: d, tape: vec![4, k, 2] });
                 }
             }
-            product.push(json!({"document": name, "sink_calls": n, "call_indices": "all", "error_kinds": errs.len(), "plus": "zero(k), interrupted(k,1) at every k; short(p) for 4 patterns"}));
+            product.push(json!({"document": name, "sink_calls": n, "call_indices": "all", "error_kinds": errs.len(), "plus": "zero(k), interrupted(k,1) at every k; one rotating further error kind per k; short(p) for 5 patterns; for documents with <= 700 sink calls (thorough: all) also short-once(k, 1 byte | len-1 | half) and interrupted(k,2), interrupted(k,3)"}));
         } else {
             // very large documents: a prefix, plus seeded indices (thorough: many more)
             let prefix = if thorough { 20_000 } else { 600 };
